@@ -153,6 +153,13 @@ pub fn tx_alphabet(n: &Node, cfg: &AlphaCfg) -> Vec<(String, Transaction, bool)>
             if cfg.transfers {
                 acc.push((format!("xfer({})", short(&c.0)), tx_t(TxKind::Normal, ins.clone(), with(vec![out_t(v, *d)]), 0, vec![]), true));
             }
+            if cfg.transfers && m.network == melstructs::NetID::Custom08 {
+                // the same transfer carrying empty signature slots (placeholders): same identity (hash_nosigs), another encoding -
+                // the dense transaction commitment of TIP-908 covers the encoding with signatures
+                let mut t = tx_t(TxKind::Normal, ins.clone(), with(vec![out_t(v, *d)]), 0, vec![]);
+                t.sigs = vec![Default::default(), Default::default()];
+                acc.push((format!("xfer+empty-sig-slots({})", short(&c.0)), t, true));
+            }
             if cfg.transfers {
                 // to the *other* always-true address: an address gains its first / loses its last coin
                 let other = if c.1.coin_data.covhash == addr_true() { addr_true2() } else { addr_true() };
